@@ -495,7 +495,12 @@ func (Scenario) Run(c choice.Chooser, opt sim.Options) sim.Result {
 			usable = append(usable, p)
 		}
 	}
-	clients := 2 + c.Intn("w:clients", 3)
+	maxClients, maxOps, maxTotal := 3, 5, 20
+	if opt.Tier == "thorough" {
+		// deeper bounds: up to 5 clients, 8 calls each, 28 in a history
+		maxClients, maxOps, maxTotal = 4, 7, 28
+	}
+	clients := 2 + c.Intn("w:clients", maxClients)
 	// serial numbers start at 100: consecutive update messages mostly have
 	// the same length, which is what a client that reuses its message buffer
 	// needs in order to hand over the very same bytes region again
@@ -507,8 +512,8 @@ func (Scenario) Run(c choice.Chooser, opt sim.Options) sim.Result {
 	plans := make([][]op, clients)
 	total := 0
 	for cl := 0; cl < clients; cl++ {
-		n := 2 + c.Intn("w:ops", 5)
-		for k := 0; k < n && total < 20; k++ {
+		n := 2 + c.Intn("w:ops", maxOps)
+		for k := 0; k < n && total < maxTotal; k++ {
 			var o op
 			switch choice.Pick(c, "op:kind", []int{4, 1, 2, 5}) {
 			case 0:
